@@ -55,8 +55,6 @@ struct {
     unsigned long dir_budget;    /* directory entries the environment still delivers              */
     size_t dname_len;            /* a NUL position of the d_name readdir handed out last          */
     unsigned long pl_calls;      /* spifconf_parse_line calls (bumped by the entry annotation)    */
-    _Bool exc;                   /* a parse_line call hit the excused behaviour (conf.h PL_PREPROC_AGAIN) */
-    unsigned long os0;           /* vg_open_streams at the entry of spifconf_parse (entry annotation) */
 } vg_ct;
 /* event order */
 struct {
@@ -124,8 +122,6 @@ size_t vg_m1, vg_m2, vg_m3;
 #define vg_dir_budget     vg_ct.dir_budget
 #define vg_dname_len      vg_ct.dname_len
 #define vg_pl_calls       vg_ct.pl_calls
-#define vg_exc            vg_ct.exc
-#define vg_os0            vg_ct.os0
 #define vg_seq            vg_ev.seq
 #define vg_t_chomp        vg_ev.t_chomp
 #define vg_t_expand       vg_ev.t_expand
